@@ -153,6 +153,10 @@ class Pseudo2NetCDF:
                 pvar = pvar[...]
             nvar[...] = pvar
         elif isinstance(pvar[...], MaskedArray):
+            if isinstance(nvar, MaskedArray):
+                # an in-memory masked variable keeps the mask itself
+                nvar[:] = pvar[...]
+                return
             # masked cells must hold the fill value the disk variable was
             # created with, otherwise they are not masked when read back
             nvar[:] = pvar[...].filled(getattr(nvar, '_FillValue', getattr(
